@@ -109,15 +109,22 @@ struct Alpha<SLabel> {
 
 // multiplicity argument alphabet (C04): {0,1,2,3,7}, 1 and 2 over-weighted
 // plus rare large values (sums over a run stay far below 2^32)
-inline unsigned multArg(int64_t x) {
+inline unsigned multArg(int64_t x, bool extreme = false) {
     static const unsigned v[16] = {0, 1, 2, 3, 7, 1, 2, 1, 0, 1, 2, 3, 7, 255, 65536, 16777216};
-    return v[((x % 16) + 16) % 16];
+    // "extreme" runs: EdgeMultiplicity is a 32-bit unsigned, every value of it is a legal argument
+    static const unsigned e[16] = {0, 1, 2, 2147483648u, 3000000000u, 4294967295u, 2147483647u, 65536, 0, 1, 4294967295u, 2147483648u, 3, 7, 4000000000u, 2147483649u};
+    return (extreme ? e : v)[((x % 16) + 16) % 16];
 }
 // weight alphabets (C05). exact: {-8..8} x 1/4 ; rounded: arbitrary finite doubles in +-1e6
 inline double weightArg(int64_t x, bool exact, bool nonneg) {
     double w;
     if (exact) {
-        w = (double)((((x % 65) + 65) % 65) - 32) / 4.0;
+        // {-8..8} x 1/4 plus a few values a tiny dyadic step away from 1 and -2.5 ("nearly equal but not equal");
+        // every partial sum of a run stays exactly representable (< 2^11 integer part, 2^-41 granularity)
+        int idx = (int)(((x % 73) + 73) % 73);
+        if (idx < 65) w = (double)(idx - 32) / 4.0;
+        else if (idx < 69) w = 1.0 + (double)(idx - 64) * std::ldexp(1.0, -41);
+        else w = -2.5 - (double)(idx - 68) * std::ldexp(1.0, -41);
     } else {
         uint64_t z = (uint64_t)x * 0x9e3779b97f4a7c15ULL;
         z ^= z >> 29; z *= 0xbf58476d1ce4e5b9ULL; z ^= z >> 32;
@@ -127,6 +134,11 @@ inline double weightArg(int64_t x, bool exact, bool nonneg) {
         int e = (int)((z >> 3) % 61) - 30;
         w = std::ldexp(u * 2.0 - 1.0, e);
         if ((x % 7) == 0) w = 0.0;
+        if ((x % 11) == 3) { // nearly equal values: a base value and its neighbours a few ulps away
+            static const double base[4] = {0.3, 1.0, -7.25, 1e6};
+            w = base[(x / 11) % 4];
+            for (int k = (int)((x / 44) % 4); k > 0; --k) w = std::nextafter(w, 1e300);
+        }
     }
     if (nonneg && w < 0) w = -w;
     return w;
